@@ -843,6 +843,10 @@ JoinWelcome(q, n) ==
     /\ n \in 1..Len(commits) /\ IsWinner(n)
     /\ ~HasGroup(q)
     /\ mine # {}
+    \* generator restriction: a Welcome is not replayed to a party that has already joined through it.  (With a
+    \* last-resort key package the library accepts it again and re-creates the joiner's initial state -- generation 0
+    \* of its ratchets included, which its peers have already consumed.)
+    /\ ~\E i \in 1..Len(hist) : hist[i].a = "JoinWelcome" /\ hist[i].p = q /\ hist[i].res = "ok" /\ hist[i].args.commit = n
     /\ LET i == CHOOSE i \in mine : TRUE
            kp == c.added[i][1]
            l == c.added[i][2]
